@@ -1630,6 +1630,36 @@ func (c *Ctx) rulesR4histsib() {
 		var blocks []*ssa.BasicBlock
 		for _, hf := range c.hostedFns(f) {
 			blocks = append(blocks, hf.Blocks...)
+			// the list decision as a bool helper: `return true/false` under a
+			// Contains test (counted once per call site)
+			if hf == f || hf.Signature.Results().Len() != 1 {
+				continue
+			}
+			if bt, ok := hf.Signature.Results().At(0).Type().Underlying().(*types.Basic); !ok || bt.Kind() != types.Bool {
+				continue
+			}
+			sites, _ := c.hostSites(hf, true)
+			for _, r := range returnsOf(hf) {
+				val, isK := constBool(retVals(r)[0])
+				if !isK {
+					continue
+				}
+				var pol *bool
+				for _, g0 := range guardsOf(r.Block()) {
+					g := expandGuard(g0)[0]
+					if call, ok := g.Cond.(*ssa.Call); ok && calleeName(&call.Call) == "Contains" {
+						v := g.Pol
+						pol = &v
+					}
+				}
+				if pol == nil {
+					continue
+				}
+				found = true
+				n += len(sites)
+				c.check(*pol, "C17.sib", fmt.Sprintf("%s: match=%v#%d is decided for a listed state", funcKey(f), val, n-k0), r.Pos(),
+					fmt.Sprintf("match is set to %v for a configured state that is NOT in the transition's called/changed set: the opposite of the in-memory tracker", val))
+			}
 		}
 		for _, b := range blocks {
 			for _, ins := range b.Instrs {
